@@ -166,8 +166,15 @@ impl<'a> Outlines<'a> {
         // <https://gitlab.freedesktop.org/freetype/freetype/-/blob/80a507a6b8e3d2906ad2c8ba69329bd2fb2a85ef/src/psaux/psft.c#L279>
         let hint_scale = Fixed::from_bits((scale.unwrap_or(Fixed::ONE).to_bits() + 32) / 64);
         let hint_state = HintState::new(&private_dict.hint_params, hint_scale);
+        // The hinter computes in 16.16, so FreeType rejects a scale above
+        // 2000 ppem ("glyph too big") and loads the glyph unhinted instead.
+        // <https://gitlab.freedesktop.org/freetype/freetype/-/blob/80a507a6b8e3d2906ad2c8ba69329bd2fb2a85ef/src/psaux/psft.c#L82>
+        // <https://gitlab.freedesktop.org/freetype/freetype/-/blob/80a507a6b8e3d2906ad2c8ba69329bd2fb2a85ef/src/cff/cffgload.c#L498>
+        let is_too_big_for_hinting = scale.is_some()
+            && hint_scale > Fixed::from_i32(2000) / Fixed::from_i32(self.units_per_em as i32);
         Ok(Subfont {
             is_cff2: self.is_cff2(),
+            is_too_big_for_hinting,
             scale,
             subrs_offset: private_dict.subrs_offset,
             hint_state,
@@ -199,8 +206,8 @@ impl<'a> Outlines<'a> {
         let blend_state = subfont.blend_state(self, coords)?;
         let mut pen_sink = PenSink::new(pen);
         let mut simplifying_adapter = NopFilteringSink::new(&mut pen_sink);
-        // Only apply hinting if we have a scale
-        if hint && subfont.scale.is_some() {
+        // Only apply hinting if we have a scale (that the hinter can handle)
+        if hint && subfont.scale.is_some() && !subfont.is_too_big_for_hinting {
             let mut hinting_adapter =
                 HintingSink::new(&subfont.hint_state, &mut simplifying_adapter);
             charstring::evaluate(
@@ -261,6 +268,7 @@ impl<'a> Outlines<'a> {
 #[derive(Clone)]
 pub(crate) struct Subfont {
     is_cff2: bool,
+    is_too_big_for_hinting: bool,
     scale: Option<Fixed>,
     subrs_offset: Option<usize>,
     pub(crate) hint_state: HintState,
